@@ -24,6 +24,8 @@ type Obligation struct {
 	Trace  []string
 	Expect string // "unsat" (proof obligation) or "sat" (reachability)
 	Timeout int   // per-obligation solver timeout override (s); 0 = tier default
+	PrePC   []Term // reach checks after a call: path condition before the call (a path that was already dead is not vacuity introduced by the callee's contract)
+	PreQuery string
 	Result SolverResult
 	Query  string
 }
@@ -251,14 +253,18 @@ func (x *Exec) reach(st *State, anchor string) {
 
 // reachOnce: a reachability (vacuity) check recorded only for the first path
 // that gets to the anchor.
-func (x *Exec) reachOnce(st *State, anchor string) {
+func (x *Exec) reachOnce(st *State, anchor string, prePC []Term) {
 	name := x.fnName + "#reach@" + anchor
 	for _, ob := range x.obls {
 		if ob.Name == name {
 			return
 		}
 	}
+	n := len(x.obls)
 	x.reach(st, anchor)
+	if len(x.obls) > n {
+		x.obls[len(x.obls)-1].PrePC = append([]Term(nil), prePC...)
+	}
 }
 
 // Query text for an obligation.
